@@ -8,7 +8,7 @@ import signal
 
 HERE = os.path.dirname(os.path.abspath(__file__))
 VERIF = os.path.dirname(HERE)
-FVH = os.path.join(VERIF, 'harness', 'target', 'debug', 'fvh')
+FVH = os.environ.get('VERIF_FVH') or os.path.join(VERIF, 'harness', 'target', 'debug', 'fvh')      # VERIF_FVH: development aid (coverage-instrumented build)
 
 
 def free_port():
@@ -49,7 +49,7 @@ class Ctl:
 
 
 class Server:
-    def __init__(self, workdir, password=None, appendonly=False, autosave=None, logon=False, extra=None):
+    def __init__(self, workdir, password=None, appendonly=False, autosave=None, logon=False, extra=None, quiet=False):
         self.dir = workdir
         os.makedirs(workdir, exist_ok=True)
         self.password = password
@@ -57,6 +57,7 @@ class Server:
         self.autosave = autosave
         self.logon = logon
         self.extra = extra or []
+        self.quiet = quiet          # output to /dev/null (a server whose file-size limit is lowered must not fail on its own log)
         self.proc = None
         self.port = None
         self.ctl_port = None
@@ -78,8 +79,11 @@ class Server:
         args += self.extra
         self.starts += 1
         self.log = open(os.path.join(self.dir, 'server.%d.log' % self.starts), 'wb')
-        self.proc = subprocess.Popen(args, stdout=self.log, stderr=subprocess.STDOUT, cwd=self.dir,
-                                     preexec_fn=os.setsid)
+        def pre():
+            os.setsid()
+            signal.signal(signal.SIGXFSZ, signal.SIG_IGN)      # a write beyond RLIMIT_FSIZE fails with EFBIG instead of killing the process
+        self.proc = subprocess.Popen(args, stdout=subprocess.DEVNULL if self.quiet else self.log, stderr=subprocess.STDOUT, cwd=self.dir,
+                                     preexec_fn=pre)
         deadline = time.time() + 20
         while time.time() < deadline:
             if self.proc.poll() is not None:
@@ -102,6 +106,13 @@ class Server:
         return None if self.proc is None else self.proc.poll()
 
     def kill(self):
+        if self.proc is not None and os.environ.get('VERIF_COV') and self.ctl and self.proc.poll() is None:
+            try:                       # development aid: a coverage-instrumented build writes its profile on an orderly exit
+                self.ctl.s.settimeout(2.0)
+                self.ctl.s.sendall(b'EXIT\n')
+                self.proc.wait(timeout=3)
+            except Exception:
+                pass
         if self.proc is not None:
             try:
                 os.killpg(self.proc.pid, signal.SIGKILL)
